@@ -689,6 +689,13 @@ std::string XMLReader::name(bool instanceLine)
     return text;
 }
 
+/** The keywords that the grammar admits as ordinary names again (the alternatives of NonTypeId in parser.y):
+ * a location, template or instance may be called like that in the textual format and in declarations. */
+static bool is_name_keyword(std::string_view word)
+{
+    return word == "sup" || word == "inf" || word == "bounds" || word == "simulation";
+}
+
 std::string XMLReader::readText(bool instanceLine)
 {
     if (std::string text; readContent(text)) {  // text content of a node
@@ -697,7 +704,7 @@ std::string XMLReader::readText(bool instanceLine)
         tracker.increment(parser, text_sv.size());
         try {
             std::string_view id = (instanceLine) ? text_sv : symbol(text_sv);
-            if (!is_keyword(id, syntax_t::OLD_PROPERTY))
+            if (!is_keyword(id, syntax_t::OLD_PROPERTY) || is_name_keyword(id))
                 return std::string{id};
             parser->handle_error(TypeException{"$Keywords_are_not_allowed_here"});
         } catch (std::logic_error& str) {
